@@ -58,3 +58,14 @@ Theorem C19_cholesky_is_linear_with_inverse (F : fieldType) d (L : 'M[F]_d) (x :
   (L *m z = x -> z = invmx L *m x)%R.
 Proof. by move=> Lu <-; rewrite mulKmx. Qed.
 Print Assumptions C19_mahalanobis.
+
+(* ---- Cholesky.from_parameters (model: Model/FromParams.v, the two scatter-adds over diag_indices and tril_indices(n, -1)):
+   the off-diagonal parameters fill the strict lower triangle ROW BY ROW, factor[r][c] = off_diagonal[r (r - 1) / 2 + c] (c < r),
+   the diagonal parameters sit on the diagonal, zero above; every dimension n ('C(r, 2) = r (r - 1) / 2) ---- *)
+From TinyGP Require Import Base.Ops Base.LMat Model.FromParams Theory.MxRefine Theory.FromParamsThy.
+Theorem C19_from_parameters_layout (F : fieldType) sq lt n (dg off : vec F) (r c : 'I_n) :
+  size dg = n -> size off = 'C(n, 2) ->
+  mx_of n n (chol_from_parameters (fops sq lt) n dg off) r c
+  = if (c < r)%N then nth 0 off ('C(r, 2) + c) else if r == c then nth 0 dg r else 0.
+Proof. exact: chol_from_parameters_layout. Qed.
+Print Assumptions C19_from_parameters_layout.
